@@ -14,3 +14,21 @@ class SquaredSum(UnevaluatedExpression):
 
     def _latex(self, printer, *args):
         return "sq"
+
+
+import sympy as sp  # noqa: E402
+from typing import Any  # noqa: E402
+
+from ampform.sympy import argument, unevaluated  # noqa: E402
+
+
+@unevaluated
+class Mixed(sp.Expr):
+    """user-defined class whose non-SymPy attribute is declared BETWEEN SymPy arguments"""
+
+    a: Any
+    tag: Any = argument(sympify=False)
+    b: Any
+
+    def evaluate(self):
+        return self.a + 2 * self.b if self.tag == "plus" else self.a - 2 * self.b
